@@ -500,18 +500,13 @@ def run(ctx):
             rel_cases.append((i, st["rel"]))
         if tf:
             tie_broken.append((i, tf[:5]))
+    deferred = []
     if alt_cases:
         hist["alt_formula_present_undersaturated_cases"] = len(alt_cases)
-        i = alt_cases[0]
-        problems, st, alt = direct_oracle(byid[i], results[i])
-        vf = [r for r in rels.get(i, []) if r[0] == "V" and not r[4]]
-        if alt:
-            report_failure(ctx, exe, byid[i], results[i], vf, problems, alt, only_alt=True)
+        deferred.append(("alt", alt_cases[0]))
     if rel_cases:
         hist["related_exchanger_offset_cases"] = len(rel_cases)
-        i, msgs = rel_cases[0]
-        ctx.finding(KEY_REL, "EXCHANGE related to an equilibrium phase: " + msgs[0],
-                    {"spec": byid[i], "db": byid[i]["db"], "input": texts[i], "oracle": msgs[:5]})
+        deferred.append(("rel", rel_cases[0]))
     ctx.cov["input_distribution"] = hist
     ctx.cov["evaluations"] = nV + nT + nprobe
     ctx.cov["property_relations_evaluated"] = nV
@@ -544,6 +539,18 @@ def run(ctx):
     if not ok and not ctx.violations:
         ctx.violation("proof obligation of C03 no longer checks and no failing input was found",
                       {"broken": ctx.proof_broken}, found_input=False)
+    # findings last: an unlisted finding must not hide a broken correspondence
+    for kind, what in deferred:
+        if kind == "alt":
+            i = what
+            problems, st, alt = direct_oracle(byid[i], results[i])
+            vf = [r for r in rels.get(i, []) if r[0] == "V" and not r[4]]
+            if alt:
+                report_failure(ctx, exe, byid[i], results[i], vf, problems, alt, only_alt=True)
+        else:
+            i, msgs = what
+            ctx.finding(KEY_REL, "EXCHANGE related to an equilibrium phase: " + msgs[0],
+                        {"spec": byid[i], "db": byid[i]["db"], "input": texts[i], "oracle": msgs[:5]})
 
 
 def replay(ctx, data):
